@@ -5,6 +5,11 @@ V_STUB = {"target": "<ckc_rs::cards::five::Five as ckc_rs::cards::HandRanker>::h
           "with": "crate::stubs::five_vh_ghost_v",
           "proved_by": "C01.rep_* + C01.k1 + C01.k3 (value in 1..=7462, function of the card set) and C03.five_identity (hand unchanged)",
           "proved_by_obs": ["C01.rep_distinct", "C01.rep_quads", "C01.rep_full_house", "C01.rep_trips", "C01.rep_two_pair", "C01.rep_pair", "C01.k1", "C01.k3", "C03.five_identity"]}
+LINK_REPS = ["C06.link_rep_distinct", "C06.link_rep_quads", "C06.link_rep_full_house", "C06.link_rep_trips", "C06.link_rep_two_pair", "C06.link_rep_pair"]
+V_STUB_RANGE = dict(V_STUB, proved_by="C06.link_rep_* (value in 1..=7462 for every class) + C01.k1 + C01.k3 + C01.sort_lemma (function of the card set) and C03.five_identity",
+                    proved_by_obs=LINK_REPS + ["C01.k1", "C01.k3", "C01.sort_lemma", "C03.five_identity"])
+V_STUB_ANY = dict(V_STUB, proved_by="C01.k1 + C01.k3 + C01.sort_lemma (any value, a function of the card set) and C03.five_identity (hand unchanged)",
+                  proved_by_obs=["C01.k1", "C01.k3", "C01.sort_lemma", "C03.five_identity"])
 TOTAL_STUB = {"target": "<ckc_rs::cards::five::Five as ckc_rs::cards::HandRanker>::hand_rank_value_and_hand",
               "with": "crate::stubs::five_vh_total", "proved_by": "C05.five_safe (returns normally, value <= 7462) and C03.five_identity",
               "proved_by_obs": ["C05.five_safe", "C03.five_identity"]}
@@ -52,7 +57,7 @@ ob("C01.k3", "c01::k3", {"C01": "H", "C03": "H", "C08": "H", "C09": "H", "C02": 
    EVAL5, unwind=7, stubs=[FIND_STUB], timeout=900, weight=2)
 for g, cats in [("distinct", "straight flush / flush / straight / high card (2574 classes)"), ("quads", "four of a kind (156)"),
                 ("full_house", "full house (156)"), ("trips", "three of a kind (858)"), ("two_pair", "two pair (858)"), ("pair", "pair (2860)")]:
-    ob("C01.rep_%s" % g, "c01::rep_%s" % g, {"C01": "P", "C02": "H", "C06": "H", "C13": "H", "C03": "H", "C09": "H", "C08": "H", "C04": "H"},
+    ob("C01.rep_%s" % g, "c01::rep_%s" % g, {"C01": "P", "C02": "H"},
        "for EVERY class of %s (symbolic sorted rank tuple + flush flag): the canonical hand of the class evaluates, through the real code end to end (real search), to ordinal(class), in 1..=7462" % cats,
        EVAL5, unwind=15, timeout=1500, weight=4, concretise=["C01.direct_any"])
 ob("C01.entry_points", "c01::entry_points", {"C01": "P", "C04": "P", "C06": "P", "C05": "P"},
@@ -72,19 +77,19 @@ ob("C03.five_identity", "c03::five_identity", {"C03": "P", "C02": "H", "C09": "H
    ["Five::hand_rank_value_and_hand", "Five::hand_rank_value"], unwind=23, stubs=[FIND_STUB], timeout=600)
 ob("C03.six_witness", "c03::six_witness", {"C03": "P"},
    "forall six distinct real cards, any slot order: the reported hand is strictly descending, its five words are distinct input cards, and V(that subset) == the reported value (five-card evaluation = ghost V)",
-   ["Six::hand_rank_value_and_hand", "Six::five_from_permutation", "Five::sort"], unwind=130, stubs=[V_STUB], timeout=1500, weight=4)
+   ["Six::hand_rank_value_and_hand", "Six::five_from_permutation", "Five::sort"], unwind=130, stubs=[V_STUB_ANY], timeout=1500, weight=4)
 ob("C03.seven_witness", "c03::seven_witness", {"C03": "P"},
    "forall seven distinct real cards, any slot order: the reported hand is strictly descending, its five words are distinct input cards, and V(that subset) == the reported value (five-card evaluation = ghost V)",
-   ["Seven::hand_rank_value_and_hand", "Seven::five_from_permutation", "Five::sort"], unwind=130, stubs=[V_STUB], timeout=2400, weight=6)
+   ["Seven::hand_rank_value_and_hand", "Seven::five_from_permutation", "Five::sort"], unwind=130, stubs=[V_STUB_ANY], timeout=2400, weight=6)
 
 # ------------------------------------------------------------------ C02 / C09
 ob("C02.six_min", "c02::six_min", {"C02": "P", "C09": "P"},
    "forall six distinct real cards, any slot order: hand_rank_value_and_hand().0 == min over ALL 6 weight-5 membership masks of V (subsets enumerated independently of the crate's table; five-card evaluation = ghost V)",
-   ["Six::hand_rank_value_and_hand", "Six::five_from_permutation", "Six::FIVE_CARD_PERMUTATIONS"], unwind=130, stubs=[V_STUB], timeout=1500, weight=4,
+   ["Six::hand_rank_value_and_hand", "Six::five_from_permutation", "Six::FIVE_CARD_PERMUTATIONS"], unwind=130, stubs=[V_STUB_RANGE], timeout=1500, weight=4,
    concretise=["C02.six_rule_based"])
 ob("C02.seven_min", "c02::seven_min", {"C02": "P", "C09": "P"},
    "forall seven distinct real cards, any slot order: hand_rank_value_and_hand().0 == min over ALL 21 weight-5 membership masks of V (five-card evaluation = ghost V)",
-   ["Seven::hand_rank_value_and_hand", "Seven::five_from_permutation", "Seven::FIVE_CARD_PERMUTATIONS"], unwind=130, stubs=[V_STUB], timeout=2400, weight=6,
+   ["Seven::hand_rank_value_and_hand", "Seven::five_from_permutation", "Seven::FIVE_CARD_PERMUTATIONS"], unwind=130, stubs=[V_STUB_RANGE], timeout=2400, weight=6,
    concretise=["C02.seven_rule_based"])
 ob("C02.six_entry_points", "c02::six_entry_points", {"C02": "P", "C04": "P", "C06": "P", "C05": "P"},
    "forall six words, forall v: if Six::hand_rank_value_and_hand returns (v, hand) then hand_rank_value() == v, hand_rank() == from(v), hand_rank_value_validated() == (is_valid ? v : 0)",
@@ -105,15 +110,15 @@ ob("C09.min_lemma", "c09::min_lemma", {"C09": "P"},
    [], unwind=130, timeout=900, weight=2)
 ob("C09.direct", "c09::direct", {"C09": "P"},
    "forall seven distinct cards, a symbolic dropped slot and a second one: real Seven, real Six built from six of the cards, real Five built from five of those: v7 <= v6 <= v5 (five-card evaluation = ghost V)",
-   ["Seven::hand_rank_value", "Six::hand_rank_value"], tier="thorough", unwind=130, stubs=[V_STUB], timeout=3600, weight=8)
+   ["Seven::hand_rank_value", "Six::hand_rank_value"], tier="thorough", unwind=130, stubs=[V_STUB_RANGE], timeout=3600, weight=8)
 
 # ------------------------------------------------------------------ C08 (value part)
 ob("C08.six_shift", "c08::six_shift", {"C08": "P"},
    "forall six distinct real cards: Six::shift_suit().hand_rank_value() == hand_rank_value() (ghost V keyed on the cards resp. the shifted cards = the five-card shift-invariance clause)",
-   ["Six::shift_suit", "Six::hand_rank_value"], unwind=130, stubs=[V_STUB], timeout=1500, weight=4)
+   ["Six::shift_suit", "Six::hand_rank_value"], unwind=130, stubs=[V_STUB_ANY], timeout=1500, weight=4)
 ob("C08.seven_shift", "c08::seven_shift", {"C08": "P"},
    "forall seven distinct real cards: Seven::shift_suit().hand_rank_value() == hand_rank_value() (ghost V as above)",
-   ["Seven::shift_suit", "Seven::hand_rank_value"], unwind=130, stubs=[V_STUB], timeout=2400, weight=6)
+   ["Seven::shift_suit", "Seven::hand_rank_value"], unwind=130, stubs=[V_STUB_ANY], timeout=2400, weight=6)
 ob("C08.five_shift_direct", "c08::five_shift_direct", {"C08": "P"},
    "forall five distinct cards, any order: the real evaluator gives the shifted hand the same value (no stubs)",
    EVAL5 + ["Five::shift_suit"], tier="thorough", unwind=15, timeout=3600, weight=8)
@@ -139,3 +144,11 @@ ob("C12.card_token_bytes", "extra::card_token_bytes", {"C12": "P"},
    "every byte string of length <= 4 that is valid UTF-8: from_index == the card of its first two characters through the symbol tables, else blank; no panic",
    ["PokerCard::from_index", "parse::get_rank_and_suit"], tier="thorough", unwind=8, timeout=3600, weight=4,
    bounded="token length <= 4 bytes")
+
+# ------------------------------------------------------------------ link between cards, value, category, class (real code)
+for g, cats in [("distinct", "straight flush / flush / straight / high card"), ("quads", "four of a kind"), ("full_house", "full house"),
+                ("trips", "three of a kind"), ("two_pair", "two pair"), ("pair", "pair")]:
+    ob("C06.link_rep_%s" % g, "c06::link_rep_%s" % g, {"C06": "P", "C13": "P", "C04": "P", "C09": "H", "C02": "H"},
+       "for EVERY class of %s (symbolic sorted tuple + flush flag): hand_rank() of the canonical hand, real code end to end, has a value in 1..=7462 and the category and class identifiers of the cards; is_flush / is_straight / is_straight_flush agree with the reported category" % cats,
+       EVAL5 + ["Five::hand_rank", "HandRank::from", "HandRank::determine_name", "HandRank::determine_class", "Five::is_straight", "Five::is_straight_flush"],
+       unwind=15, timeout=1800, weight=4, concretise=["C06.cards_link_native"])
